@@ -85,7 +85,7 @@ def _explore_evaluate(comp, task):
     bound = unwind_bound(setup)
     all_stmts = []
     _walk_statements(fn.body, all_stmts)
-    deadline = time.time() + task.get("time_budget", 600)
+    deadline = time.process_time() + task.get("time_budget", 600)
     out = {}
 
     solver = setup.shared_solver(task.get("solver_timeout_ms", 60000))
